@@ -750,4 +750,43 @@ mut("thread: daily-volume builder passes its hours as active days", ["R-THREAD"]
     [(TB, "        timespan, volume_per_hour, frequency='daily', active_days=None, hours=hours,",
       "        timespan, volume_per_hour, frequency='daily', active_days=None, hours=None,")], ["hours"])
 
+# ------------------------------------------------------------------------------------------------ refactoring twins
+twin("twin: duplicated hours merged with groupby(level=0)", ["R-LOCAL"],
+     [(EO, "            fused_duplicates = duplicates_df.groupby(duplicates_df.index).sum()",
+       "            fused_duplicates = duplicates_df.groupby(level=0).sum()")])
+twin("twin: per-pattern occurrences built with a dict comprehension", ["R-PERUP", "R-PROV", "R-WRITE", "R-ORDER"],
+     [(JOB, '''        self.hourly_occurrences_per_usage_pattern = ExplainableObjectDict()
+        for up in self.usage_patterns:
+            self.hourly_occurrences_per_usage_pattern[up] = self.compute_hourly_occurrences_for_usage_pattern(up)''',
+       '''        self.hourly_occurrences_per_usage_pattern = ExplainableObjectDict(
+            {up: self.compute_hourly_occurrences_for_usage_pattern(up) for up in self.usage_patterns})''')])
+twin("twin: self_delete guard written with len()", ["R-GUARD"],
+     [(MO, "        if self.modeling_obj_containers:\n            raise PermissionError(",
+       "        if len(self.modeling_obj_containers) > 0:\n            raise PermissionError(")])
+twin("twin: a log line after the final reset of a simulation", ["R-TXN"],
+     [(MU, "        if simulation_date is not None:\n            self.reset_values()\n",
+       "        if simulation_date is not None:\n            self.reset_values()\n        logger.debug(\"update done\")\n")])
+twin("twin: loop variables of reset_values renamed", ["R-MIRROR"],
+     [(MU, '''            for new_value, previous_value in zip(
+                    self.all_new_obj_linked_to_mod_obj, self.all_previous_obj_linked_to_mod_obj):
+                new_value.replace_in_mod_obj_container_without_recomputation(previous_value)
+            self.updated_values_set = False''', '''            for simulated, baseline in zip(
+                    self.all_new_obj_linked_to_mod_obj, self.all_previous_obj_linked_to_mod_obj):
+                simulated.replace_in_mod_obj_container_without_recomputation(baseline)
+            self.updated_values_set = False''')])
+twin("twin: category key renamed in update_total_footprint", ["R-AGG"],
+     [(SYS, '''                sum(self.fabrication_footprints[key].values()) + sum(self.energy_footprints[key].values())
+                for key in self.fabrication_footprints.keys()''',
+       '''                sum(self.fabrication_footprints[category].values()) + sum(self.energy_footprints[category].values())
+                for category in self.fabrication_footprints.keys()''')])
+twin("twin: network filters the shared patterns the other way round", ["R-PERUP", "R-PROV"],
+     [(NW, "            job_ups_in_network_ups = [up for up in job.usage_patterns if up in self.usage_patterns]",
+       "            job_ups_in_network_ups = [up for up in self.usage_patterns if up in job.usage_patterns]")])
+twin("twin: UTC conversion called positionally", ["R-LOCAL", "R-PROV"],
+     [(UP, "        utc_hourly_usage_journey_starts = self.hourly_usage_journey_starts.convert_to_utc(\n            local_timezone=self.country.timezone)",
+       "        utc_hourly_usage_journey_starts = self.hourly_usage_journey_starts.convert_to_utc(self.country.timezone)")])
+twin("twin: twin links written in the other order", ["R-ZIP"],
+     [(MU, "            value_to_recompute.simulation_twin = recomputed_value\n            recomputed_value.baseline_twin = value_to_recompute",
+       "            recomputed_value.baseline_twin = value_to_recompute\n            value_to_recompute.simulation_twin = recomputed_value")])
+
 VARIANTS = [v for v in V if v is not None]
